@@ -353,6 +353,19 @@ def run(ctx):
                     out = ("raise", ex)
                 judge(ctx, st, "Fault." + how, None, f, rid, None, True, None, cname, cfg, out)
                 ctx.case(("Fault." + how, code, gen.trepr(data), gen.trepr(rid), cname))
+            if rid is None:
+                continue
+            # the same id forced through the method's own parameter on a Fault built without one
+            for how in ("response", "dump"):
+                g = jsonrpclib.Fault(code, msg, config=cfg, data=data)
+                _remember(g, (code, msg, data))
+                try:
+                    got = json.loads(g.response(rpcid=rid)) if how == "response" else gen.jn(g.dump(rpcid=rid))
+                    out = ("ok", got, None)
+                except Exception as ex:
+                    out = ("raise", ex)
+                judge(ctx, st, "Fault.%s(rpcid=)" % how, None, g, rid, None, True, None, cname, cfg, out)
+                ctx.case(("Fault.%s(rpcid=)" % how, code, gen.trepr(data), gen.trepr(rid), cname))
 
     # random deep params / results
     nr = ctx.pick(15000, 300000)
